@@ -289,7 +289,7 @@ def decoration_env_stores(sw):
     # a loop over every stored series pre-loads the decorative variables with their value of the previous period
     for loop in [n for n in ast.walk(f) if isinstance(n, ast.For)]:
         srcs = {x.attr for x in ast.walk(loop.iter) if isinstance(x, ast.Attribute)}
-        if 'TimeSeries' in srcs and not (srcs & set(PARTITIONS)):
+        if ('TimeSeries' in srcs or 'VariableList' in srcs) and not (srcs & set(PARTITIONS)):
             for a in ast.walk(loop):
                 if isinstance(a, ast.Assign):
                     for t in a.targets:
